@@ -9,6 +9,13 @@ import ClairModel.Model.Matchers
     debnew <a>                           -> err | hex of NewVersion(a).String()
     apkcmp <a> <b>                       -> -1 | 0 | 1
     apkvalid <a>                         -> true | false
+    urlq <s>                             -> err | ok <introduced> <fixed> <lastAffected>
+    osv <pkgver> <fixedin> <table>       -> true | false | err | missing:<hex>
+         table = comma separated  <string>/<parses 1|0>/<pkg compared to it l|e|g|x>  (or "none"):
+         what the real parser / comparator of the scheme said about the strings involved
+    vercmp <kind> <v0,..,v9> <kind> <v0,..,v9>            -> -1 | 0 | 1
+    range <nil|set> <lkind> <l..> <ukind> <u..> <vkind> <v..>   -> true | false
+    ctl <versionFilter 0|1> <authoritative 0|1> <dbhit 0|1> <matcher> <vuln fields…>  -> true | false | err | hang
     rpmstr <a>                           -> hex of NewVersion(a).String()
     archop <op> <a> <b> <re>             -> true | false
     vuln <matcher> <pkgver> <pkgarch> <fixed> <vulnpkgver> <vulnpkgarch> <archop> <re> [<gate>]
@@ -54,6 +61,49 @@ def rpmString (v : VerRpm.Version) : Str :=
   (if v.epoch > 0 then natStr v.epoch.toNat ++ [':'] else []) ++ v.version ++
   (if v.release ≠ [] then '-' :: v.release else [])
 
+/-- The scheme of an `osv` line: strings are their own parsed form, what the
+    real parser / comparator said is looked up in the table. -/
+structure Entry where
+  s : Str
+  parses : Bool
+  cmp : Option Ordering
+
+def parseEntry (w : String) : Option Entry :=
+  match w.splitOn "/" with
+  | [h, p, c] => do
+    let s ← str h
+    let c ← match c with
+      | "l" => some (some Ordering.lt)
+      | "e" => some (some Ordering.eq)
+      | "g" => some (some Ordering.gt)
+      | "x" => some none
+      | _ => none
+    pure ⟨s, p == "1", c⟩
+  | _ => none
+
+def parseTable (w : String) : Option (List Entry) :=
+  if w == "none" then some [] else (w.splitOn ",").mapM parseEntry
+
+def tableScheme (t : List Entry) : Scheme Str where
+  parse s := match t.find? (fun e => e.s = s) with
+    | some e => if e.parses then some s else none
+    | none => none
+  cmp _ b := match t.find? (fun e => e.s = b) with
+    | some e => e.cmp.getD .eq
+    | none => .eq
+
+/-- The strings the matcher will hand to the parser, for the completeness check of the table. -/
+def osvNeeds (pv fixedIn : Str) : List Str :=
+  if fixedIn = [] then [] else
+  pv :: match parseQuery fixedIn with
+    | none => []
+    | some q => [qget q kIntroduced, qget q kFixed, qget q kLastAffected].filter (· ≠ [])
+
+def parseInts (w : String) : Option (List Int) := (w.splitOn ",").mapM String.toInt?
+
+def parseNVersion (k v : String) : Option NVersion := do
+  pure { kind := ← str k, v := ← parseInts v }
+
 def vulnLine (m : String) (p : Pkg) (v : Vuln) (gate : Option RhelGate) : Option Out :=
   match m with
   | "aws" => some (vulnerableAws p v)
@@ -64,6 +114,8 @@ def vulnLine (m : String) (p : Pkg) (v : Vuln) (gate : Option RhelGate) : Option
   | "alpine" => some (vulnerableAlpine p v)
   | "debian" => some (vulnerableDebian p v)
   | "ubuntu" => some (vulnerableUbuntu p v)
+  | "gobin" => some (vulnerableNoop p v)
+  | "nodejs" => some (vulnerableNoop p v)
   | "rhel" => gate.map fun g => vulnerableRhel g p v
   | _ => none
 
@@ -86,6 +138,32 @@ def answer (l : String) : Option String :=
   | ["apkvalid", a] => do pure (toString (VerApk.valid (← str a)))
   | ["archop", op, a, b, re] => do
     pure (toString (archCmp (← op.toNat?) (← str a) (← str b) (← parseRe re)))
+  | ["urlq", q] => do
+    match parseQuery (← str q) with
+    | none => pure "err"
+    | some m => pure s!"ok {hexOf (qget m kIntroduced)} {hexOf (qget m kFixed)} {hexOf (qget m kLastAffected)}"
+  | ["osv", pv, fx, tbl] => do
+    let pv ← str pv
+    let fx ← str fx
+    let t ← parseTable tbl
+    match (osvNeeds pv fx).find? (fun s => !(t.any fun e => e.s = s)) with
+    | some s => pure s!"missing:{hexOf s}"
+    | none => pure (outStr (vulnerableOsv (tableScheme t) { version := pv } { fixed := fx }))
+  | ["vercmp", k1, v1, k2, v2] => do
+    pure (ordStr ((← parseNVersion k1 v1).compare (← parseNVersion k2 v2)))
+  | ["range", tag, lk, lv, uk, uv, vk, vv] => do
+    let r : NRange := { lower := ← parseNVersion lk lv, upper := ← parseNVersion uk uv }
+    let v ← parseNVersion vk vv
+    pure (toString (rangeContains (if tag == "nil" then none else some r) v))
+  | "ctl" :: vf :: au :: hit :: m :: pv :: pa :: fx :: vv :: va :: op :: re :: rest => do
+    let p : Pkg := { version := ← str pv, arch := ← str pa }
+    let v : Vuln := { fixed := ← str fx, pkgVersion := ← str vv, pkgArch := ← str va,
+                      archOp := ← op.toNat?, re := ← parseRe re }
+    let gate ← match rest with
+      | [] => pure none
+      | [g] => (parseGate g).map some
+      | _ => none
+    pure (outStr (controllerKeeps (vf == "1") (au == "1") (hit == "1") (← vulnLine m p v gate)))
   | "vuln" :: m :: pv :: pa :: fx :: vv :: va :: op :: re :: rest => do
     let p : Pkg := { version := ← str pv, arch := ← str pa }
     let v : Vuln := { fixed := ← str fx, pkgVersion := ← str vv, pkgArch := ← str va,
